@@ -1441,9 +1441,13 @@ class Converter:
                 as_bool = ta.base_type_is_bool(typeinfo)
                 self._bind(x.arg, values.AttrRef(attr, as_bool, self._source_of(x)))
             else:
-                onnx_parameter = make_value(x.arg, typeinfo, self._source_of(x))
+                # Value names share one namespace across all nested scopes: a parameter of a
+                # nested function must not redefine a name already used in an enclosing graph.
+                # (For a top-level function no name is in use yet, so the name is unchanged.)
+                onnx_parameter = make_value(
+                    self._generate_unique_name(x.arg), typeinfo, self._source_of(x)
+                )
                 self._current_fn.append_parameter(onnx_parameter)
-                self._used_vars.add(x.arg)
                 self._bind(
                     x.arg,
                     values.SymbolValue(onnx_parameter, self._source_of(x)),
